@@ -1,7 +1,7 @@
 """C08 - Ford-Fulkerson returns a maximum flow and a matching minimum cut."""
 import itertools, json, os
 from harness import flowlib
-from harness.common import pmap, lean_query, guard, VERIF
+from harness.common import pmap, lean_query, guard, VERIF, safe_judge
 from harness.c01 import chunks
 
 LEVEL = "proof"
@@ -53,6 +53,7 @@ def gen_exhaustive4():
         yield {"verts": verts, "edges": edges, "s": 0, "t": 3}
 
 
+@safe_judge
 def judge(R, net, res, ff_ans, cert_ans, tag):
     if "hang" in res:
         R.violation("property_violation", "termination", ENTRY, net, impl_output="no result within deadline", oracle="non-termination")
